@@ -6,6 +6,7 @@ import (
 
 	"github.com/canopy-network/canopy/bft"
 	"github.com/canopy-network/canopy/lib"
+	"github.com/canopy-network/canopy/lib/crypto"
 )
 
 // Scenario is one round-level environment decision (explorer (c), Search 1).
@@ -16,7 +17,7 @@ type Scenario struct {
 	Q1   int  // PRECOMMIT recipients: 0 all; 1 leader only; 2 minimal quorum incl. leader; 3 none
 	Q2   int  // COMMIT recipients: 0 all; 1 none; 2 leader only; 3+i node i only
 	V    int  // Byzantine replica: 0 votes; 1 withholds its votes
-	L    int  // Byzantine leader: 0 honest; 1,2 re-proposes known certificate 0/1 with that certificate as HighQc; 3 proposes a fresh block with no justification; 4 equivocates (X to one half of the honest nodes, X' to the other)
+	L    int  // Byzantine leader: 0 honest; 1,2 re-proposes known certificate 0/1 with that certificate as HighQc; 3 proposes a fresh block with no justification; 4 equivocates (X to one half of the honest nodes, X' to the other); 5,6 like 1,2 with the latest certificate; 7 equivocates on the certificate RESULTS only (same block, results R / R'); 8 proposes the first certified block again with OTHER results and no justification
 }
 
 func (s Scenario) String() string {
@@ -351,7 +352,15 @@ func (w *World) puppet(rc *roundCtx, phaseFired lib.Phase) {
 			hq := &lib.QuorumCertificate{Header: c.QC.Header.Copy(), BlockHash: c.QC.BlockHash, ResultsHash: c.QC.ResultsHash, ProposerKey: c.QC.ProposerKey,
 				Signature: c.QC.Signature, Block: c.Block, Results: c.Results}
 			rc.tracks = []*track{{block: c.Block, results: c.Results, bh: c.QC.BlockHash, rh: c.QC.ResultsHash, highQc: hq, rcBuild: c.RCBuild, to: all}}
-		case rc.sc.L == 4:
+		case rc.sc.L == 8:
+			// the block of the first certificate again, with different results, no justification
+			c := w.certFor(0, false)
+			if c == nil || c.Block == nil || c.Results == nil {
+				return
+			}
+			rx := otherResults(c.Results)
+			rc.tracks = []*track{{block: c.Block, results: rx, bh: c.QC.BlockHash, rh: rx.Hash(), rcBuild: rc.rh, to: all}}
+		case rc.sc.L == 4 || rc.sc.L == 7:
 			// equivocate: X to every node but the highest honest one, X' to that one (and to itself)
 			var hon []int
 			for i := range w.Nodes {
@@ -369,6 +378,9 @@ func (w *World) puppet(rc *roundCtx, phaseFired lib.Phase) {
 				} else {
 					toY[i] = true
 				}
+			}
+			if rc.sc.L == 7 {
+				by, ry = bx, otherResults(rx) // the same block under two different certificate results
 			}
 			hash := func(b []byte) []byte { h, _ := new(lib.Block).BytesToBlockHash(b); return h }
 			rc.tracks = []*track{
@@ -388,7 +400,7 @@ func (w *World) puppet(rc *roundCtx, phaseFired lib.Phase) {
 		if phaseFired == lib.Phase_COMMIT {
 			votePhase, kind = lib.Phase_PRECOMMIT_VOTE, KPrecommitVote
 		}
-		if rc.sc.L == 4 {
+		if rc.sc.L == 4 || rc.sc.L == 7 {
 			// the equivocator shows both (full and partial) certificates to everybody: that is
 			// what turns into double-sign evidence at the replicas
 			for _, t := range rc.tracks {
@@ -434,7 +446,7 @@ func (w *World) puppet(rc *roundCtx, phaseFired lib.Phase) {
 			}
 			as := &lib.AggregateSignature{Signature: sig, Bitmap: mk.Bitmap()}
 			full := power >= vs.MinimumMaj23
-			if !full && rc.sc.L != 4 {
+			if !full && rc.sc.L != 4 && rc.sc.L != 7 {
 				continue // a partial certificate is only interesting as evidence (equivocation mode)
 			}
 			ph := lib.Phase_PRECOMMIT
@@ -447,5 +459,17 @@ func (w *World) puppet(rc *roundCtx, phaseFired lib.Phase) {
 			m := &bft.Message{Header: view(ph), Qc: &lib.QuorumCertificate{Header: hdr, BlockHash: t.bh, ResultsHash: t.rh, ProposerKey: rc.tmpl.Qc.ProposerKey, Signature: as}, RcBuildHeight: t.rcBuild}
 			sendAll(m)
 		}
+	}
+}
+
+// otherResults returns well-formed certificate results that differ from r (another reward recipient).
+func otherResults(r *lib.CertificateResult) *lib.CertificateResult {
+	addr := crypto.Hash([]byte("other-recipient"))[:20]
+	if r != nil && r.RewardRecipients != nil && len(r.RewardRecipients.PaymentPercents) > 0 && bytes.Equal(r.RewardRecipients.PaymentPercents[0].Address, addr) {
+		addr = crypto.Hash([]byte("yet-another-recipient"))[:20]
+	}
+	return &lib.CertificateResult{
+		RewardRecipients: &lib.RewardRecipients{PaymentPercents: []*lib.PaymentPercents{{Address: addr, Percent: 100, ChainId: ChainID}}},
+		SlashRecipients:  &lib.SlashRecipients{},
 	}
 }
